@@ -635,6 +635,15 @@ func endBlockMonitors(out *Out, h int, e *Env, ix *coreIx, pre, post *coreDump, 
 				prop, mon = "C04", "payout_amounts"
 			}
 			failOnce(out, h, prop, mon, "endblock-payout-mismatch", k, fmt.Sprintf("account %d received %s in this end-block, entitled to %s (%d bets, %d participations settled)", ix.A(k), got, want, nBets, nParts))
+			// C08: a bet that was paid out has been settled and must be listed as settled, not as pending any more
+			if got.GT(want) {
+				for _, b := range post.bets {
+					if b.Creator == k && b.Status != bettypes.Bet_STATUS_SETTLED && isResolvedStatus(mById[b.MarketUID].Status) {
+						failOnce(out, h, "C08", "settled_listed_settled", "paid-while-listed-pending", b.UID, fmt.Sprintf("bettor %d was paid %s beyond the settled records in this end-block while bet %d of resolved market %d is still recorded and listed as pending", ix.A(k), got.Sub(want), uidN(b.UID), uidN(b.MarketUID)))
+						break
+					}
+				}
+			}
 		}
 	}
 }
